@@ -1,5 +1,6 @@
 """C01 - no stale derived state: a scene reached through any history of mutators observes exactly like a scene
 built from scratch in the final configuration.  Three state machines (plasma / beam / laser scenes)."""
+import copy
 import math
 
 import numpy as np
@@ -690,7 +691,7 @@ def beam_params(draw):
     b["pl"] = draw(st.sampled_from(["a", "a", "b"]))
     if b.get("aux"):
         b["aux"] = dict(b["aux"], ad=draw(st.sampled_from(["A", "B"])), pl=draw(st.sampled_from(["a", "a", "b"])))
-    return {"mid": draw(_tf()), "plasma": p, "plasma_b": pb, "beam": b, "theme": draw(_theme)}
+    return {"mid": draw(_tf()), "plasma": p, "plasma_b": pb, "beam": b, "theme": draw(st.one_of(_theme, _theme, st.just("attenuator")))}
 
 
 class BeamScene(SceneBase):
@@ -786,9 +787,29 @@ class BeamScene(SceneBase):
         return not is_open("C01-beam-modified-cdef")
 
     def do_b_att_swap(self, a):
+        self._att_pool().append((self._b().attenuator, copy.deepcopy(self.rec["beam"]["att"])))
+        del self._att_pool()[:-3]
         self.rec["beam"]["att"] = a
         self._b().attenuator = mk_attenuator(a, self._b())
         self._mut("b_att_swap:" + a.get("ctor", "bare"))
+
+    def _att_pool(self):
+        # attenuator objects this beam used earlier (with the settings they had when they were taken off)
+        if not hasattr(self, "_attpool"):
+            self._attpool = []
+        return self._attpool
+
+    def pre_b_att_back(self):
+        return bool(self._att_pool())
+
+    def do_b_att_back(self, k):
+        # an attenuator object that was replaced earlier is put back (A, then B, then A again): it must follow the beam as it is now
+        pool = self._att_pool()
+        obj, cfg = pool.pop(k % len(pool))
+        pool.append((self._b().attenuator, copy.deepcopy(self.rec["beam"]["att"])))
+        self.rec["beam"]["att"] = cfg
+        self._b().attenuator = obj
+        self._mut("b_att_back")
 
     def pre_b_att_step(self):
         return not is_open("C01-beam-modified-cdef")
@@ -897,6 +918,7 @@ class BeamScene(SceneBase):
         "b_tf": lambda: st.tuples(st.sampled_from([0.0, 0.05, -0.1]), st.sampled_from([0.0, 4.0, -7.0])),
         "b_parent": lambda: st.sampled_from(["world", "mid", "world", "mid", "none"]),
         "b_att_swap": _att,
+        "b_att_back": lambda: st.integers(0, 2),
         "b_att_step": lambda: st.sampled_from([0.02, 0.05, 0.11]),
         "b_att_clamp_sigma": lambda: st.sampled_from([2.0, 3.5, 5.0]),
         "b_models_set": lambda: st.lists(_bmodel(), min_size=0, max_size=2),
@@ -1124,6 +1146,8 @@ THEMES = {
     "profiles": ("p_b", "p_electrons", "p_comp", "p_ad", "b_energy", "b_power", "b_temperature", "b_att", "b_refused", "b_plasma", "l_polarization",
                  "l_importance", "l_spectrum_set", "l_plasma"),
 }
+# beam scenes only: the attenuator object's life (replaced, put back, reconfigured) between changes of what it depends on
+THEMES["attenuator"] = ("b_att", "b_reassign", "b_energy", "b_power", "b_length", "b_sigma", "b_div", "b_tf", "b_plasma", "p_comp", "p_tf")
 _theme = st.sampled_from([None, None, None, "provider", "geometry", "profiles"])
 
 
